@@ -745,7 +745,19 @@ def rule_counted(ctx):
             elif counted:
                 res.ok()
             else:
-                res.violate("%s : counted-targets-forged" % key, "a CountedTargets value is built with a `labels` cache that is not `label_count()` of the targets it wraps: the cached counts can disagree with the targets", fn_loc(fn, n["ln"]))
+                # positive evidence of a forged cache: it is taken from *another* container's counts (`label_count()` / a
+                # `.labels` field of something that is not the wrapped targets).  A cache assembled by hand from counters
+                # of the same pass may well be right: that is not decided here.
+                foreign = None
+                for y in walk(fn["body"]):
+                    if y.get("k") == "MethodCall" and y["name"] == "label_count" and peel_refs(y["recv"]).get("local") != tl.get("local"):
+                        foreign = "`%s`" % Render(c).e(y)[:50]
+                    if y.get("k") == "Field" and y["name"] == "labels" and "CountedTargets" in (c.ty(peel_refs(y["e"]).get("t")) or ""):
+                        foreign = "`%s`" % Render(c).e(y)[:50]
+                if foreign:
+                    res.violate("%s : counted-targets-forged" % key, "a CountedTargets value is built with a `labels` cache derived from %s, the counts of another container, not from the targets it wraps: the cached counts can disagree with the targets" % foreign, fn_loc(fn, n["ln"]))
+                else:
+                    res.undecided("%s : counted-cache-provenance" % key, "a CountedTargets literal whose `labels` cache is assembled by hand; whether it equals a recount of the wrapped targets is not decided", fn_loc(fn, n["ln"]))
     res.instance("crate linfa: %d CountedTargets literals, %d CountedTargets::new calls" % (n_lit, news))
     if n_lit or news:
         res.ok()
